@@ -51,7 +51,7 @@ type SiteInfo struct {
 // Sites is filled by the generated file in the instrumented copy.
 var Sites []SiteInfo
 
-const MaxTasks = 8
+const MaxTasks = 32
 
 type vclock [MaxTasks]uint32
 
@@ -134,6 +134,7 @@ type task struct {
 	inCall   bool // between BeginCall/EndCall
 	fn       func()
 	lastSite int32
+	spawned  bool // started by the library through a go statement
 	streak   int // consecutive synchronisation points without any memory access in between (spin detection)
 }
 
@@ -623,6 +624,62 @@ func deadlock(t *task) {
 	}
 	d["blocked"] = strings.Join(parts, "; ")
 	abortRun(&Violation{Class: "LIBRARY_BLOCKED", Key: key, Detail: d}, "")
+}
+
+// Go starts f as a new simulated task (the instrumented form of a `go` statement inside the library).
+func Go(f func()) {
+	if !active || cur == nil {
+		go f()
+		return
+	}
+	parent := cur
+	point(parent, -1, ClsSync, true)
+	id := len(tasks)
+	var base uint32
+	if id >= MaxTasks {
+		// recycle the slot of a finished library goroutine: its clock component simply continues
+		// (costs precision only: a race between the old and the new occupant of the slot is not seen)
+		id = -1
+		for _, o := range tasks {
+			if o.done && o.spawned {
+				id = o.id
+				base = o.vc[o.id]
+				break
+			}
+		}
+		if id < 0 {
+			abortRun(nil, "library keeps more goroutines alive than the simulator tracks")
+		}
+	}
+	child := &task{id: id, wake: make(chan struct{}, 1), prio: parent.prio, spawned: true}
+	child.vc = parent.vc
+	if child.vc[id] < base {
+		child.vc[id] = base
+	}
+	child.vc[id]++
+	parent.vc[parent.id]++
+	child.inCall = true
+	child.fn = func() {
+		defer func() {
+			if r := recover(); r != nil {
+				abortRun(&Violation{Class: "LIBRARY_CRASH", Key: "panic in a goroutine started by the library", Detail: map[string]string{"panic": fmt.Sprint(r)}}, "")
+			}
+		}()
+		f()
+	}
+	if id == len(tasks) {
+		tasks = append(tasks, child)
+	} else {
+		tasks[id] = child
+	}
+	logEv('G', uint64(parent.id), uint64(child.id), 0)
+	probe("library_goroutine")
+	go func() {
+		<-child.wake
+		child.fn()
+		taskDone(child)
+	}()
+	point(parent, -1, ClsSync, true)
 }
 
 // ---------------------------------------------------------------------------
